@@ -874,12 +874,16 @@ def replay(ctx, path):
         model = None if req.startswith("planfile") else common.run_model([req])[0]
         print(json.dumps({"request": req, "impl": impl, "model": model, "expected": obj.get("expected")}, indent=1))
         # rebuild the by-construction case and judge again
-        c = Case(case["style"], case["lead"], case["prefix_words"], case["suffix_words"], case["doubled"], case["trailing"],
-                 case.get("term_words", ["x"]), case.get("replacement_words", ["y"]),
-                 case["variant"] if not case["variant"].startswith("near:") else "plain")
+        if case.get("variant") == "twice":
+            c = Twice(case["style"], case["lead"], case["prefix_words"], case["between_words"], case["suffix_words"],
+                      case["doubled_after_segment"], case["trailing"], case["term_words"], case["replacement_words"])
+        else:
+            c = Case(case["style"], case["lead"], case["prefix_words"], case["suffix_words"], case["doubled"], case["trailing"],
+                     case.get("term_words", ["x"]), case.get("replacement_words", ["y"]),
+                     case["variant"] if not case["variant"].startswith("near:") else "plain")
         c.ident, c.expected, c.near = case["identifier"], case["expected_if_touched"], case["near_miss"]
         c.search, c.replace, c.styles, c.variant = case["search"], case["replace"], case["styles"], case["variant"]
-        if "outside_the_term" in case:
+        if "outside_the_term" in case and case.get("variant") != "twice":
             c.outer = tuple(case["outside_the_term"])
         if case.get("dotted"):
             c.dot = tuple(case["dotted"])
